@@ -507,12 +507,22 @@ def judge_schedule(scn, sch, log):
                         viols.append(("inblock_value_older_than_block_entry", ctx_base + f" {tag} {rec}"))
                     if src in firsts and firsts[src][1] != v:
                         mech = "inblock_values_differ_for_one_source"
-                        m0, v0 = firsts[src]
-                        if m0 in FRONT_MEMOIZED and m not in FRONT_MEMOIZED and v0 < v:
-                            # the front-end cache (cpu_times/uids/ppid/memory_info) holds a value another thread put
-                            # there while the block was being entered, before the platform-level cache was activated;
-                            # the platform-level source is then read again by a method cached at that level only
-                            mech += ":frontend_cache_filled_before_platform_cache_activated"
+                        ti = 0 if tag == "A" else 1
+                        otag = "B" if tag == "A" else "A"
+                        rng_ = range(rec["step0"], min(rec["step1"] + 1, len(sch.points)))
+                        first_body = next((i for i in rng_ if sch.points[i][0] == ti and sch.points[i][2] == "wrapper"), rec["step1"])
+                        enter = [i for i in rng_ if i < first_body and sch.points[i][0] == ti
+                                 and sch.points[i][2] in ("oneshot_enter", "cache_activate")]
+                        # a yield point is the *start* of a line: the last activation line has run only when this
+                        # thread reaches its next yield point
+                        nxt = next((i for i in range(enter[-1] + 1, len(sch.points)) if sch.points[i][0] == ti),
+                                   len(sch.points)) if enter else 0
+                        if enter and any(o["step0"] < nxt and o["step1"] >= rec["step0"] for o in log[otag]):
+                            # a call of the other thread was in flight while this block was being entered, i.e. between the
+                            # activation of the front-end cache and of the platform-level cache (or between the three
+                            # platform-level activations, each of which installs a new dict): that call reads and caches
+                            # outside the block's final platform-level cache, so one source is read twice in the block
+                            mech += ":other_thread_call_in_flight_during_block_entry"
                         viols.append((mech, ctx_base + f" {tag} {rec}"))
                     firsts.setdefault(src, (m, v))
             else:
